@@ -1,0 +1,78 @@
+//go:build verif
+// +build verif
+
+// Verification hook (property C15, path before the signing round): a Processor holding only what
+// OnMessageVerify / loadOrNewSignParty / waitUntilDone use (party map, finished-party and
+// future-message caches, party lock, logger), and a way to hand it a SignParty in the state round0
+// leaves when the cast message has passed its checks (party registered under the provisional key,
+// real block hash pending on ChangedId).  Everything after that - re-keying, draining of the stored
+// verify messages, routing of later ones, closing of the party - is the node's own code.
+// Add-only; compiled only with -tags verif (needs common.Init for the lock's logger).
+package logical
+
+import (
+	"com.tuntun.rangers/node/src/common"
+	"com.tuntun.rangers/node/src/consensus/model"
+	"com.tuntun.rangers/node/src/middleware"
+)
+
+type VerifR1Proc struct {
+	p *Processor
+}
+
+// VerifR1NewProcessor mirrors the party-related part of Processor.Init.
+func VerifR1NewProcessor(lg *VerifR1Logger) *VerifR1Proc {
+	p := &Processor{}
+	p.partyManager = make(map[string]Party, 10)
+	p.partyLock = middleware.NewLoglock("partyLock")
+	p.logger = lg
+	p.finishedParty = common.CreateLRUCache(300)
+	p.futureMessages = common.CreateLRUCache(50)
+	return &VerifR1Proc{p: p}
+}
+
+// OnMessageVerify is Processor.OnMessageVerify.
+func (vp *VerifR1Proc) OnMessageVerify(cvm *model.ConsensusVerifyMessage) { vp.p.OnMessageVerify(cvm) }
+
+// Adopt registers v's party under the provisional key as loadOrNewSignParty does for a new cast
+// message, starts waitUntilDone for it and announces the block hash on ChangedId as round0.checkBlock
+// does.
+func (vp *VerifR1Proc) Adopt(v *VerifR1, provisionalKey string) {
+	p := vp.p
+	p.partyLock.Lock("verif-adopt")
+	v.party.id = provisionalKey
+	p.partyManager[provisionalKey] = v.party
+	p.partyLock.Unlock("verif-adopt")
+	go p.waitUntilDone(v.party)
+	hashString := v.r1.bh.Hash.String()
+	v.r1.partyId = hashString
+	v.party.ChangedId <- hashString
+}
+
+func (vp *VerifR1Proc) key(hash common.Hash) string { return common.ToHex(hash.Bytes()) }
+
+// HasParty: a party is registered under the block hash.
+func (vp *VerifR1Proc) HasParty(hash common.Hash) bool {
+	vp.p.partyLock.Lock("")
+	defer vp.p.partyLock.Unlock("")
+	_, ok := vp.p.partyManager[vp.key(hash)]
+	return ok
+}
+
+// Finished: the block hash is in the finished-party cache.
+func (vp *VerifR1Proc) Finished(hash common.Hash) bool {
+	vp.p.partyLock.Lock("")
+	defer vp.p.partyLock.Unlock("")
+	return vp.p.finishedParty.Contains(vp.key(hash))
+}
+
+// Stored: number of verify messages kept for a block hash no party exists for yet.
+func (vp *VerifR1Proc) Stored(hash common.Hash) int {
+	vp.p.partyLock.Lock("")
+	defer vp.p.partyLock.Unlock("")
+	raw, ok := vp.p.futureMessages.Peek(vp.key(hash))
+	if !ok {
+		return 0
+	}
+	return len(raw.([]model.ConsensusMessage))
+}
